@@ -20,7 +20,7 @@ NAMES = ["A", "B", "C-D e"]
 
 
 def bounds(tier):
-    return {"depth": 4 if tier == "quick" else 5, "values": 5 if tier == "quick" else 9}
+    return {"depth": 4 if tier == "quick" else 5, "values": 6 if tier == "quick" else 10}
 
 
 def values(n):
@@ -31,7 +31,8 @@ def values(n):
     except NameError:
         _OP = OpCode("A", 1, {})
     # includes falsy values (0, None, empty dict): "is the name present" must not be confused with "is its value true"
-    v = [("i1", int("1000000000001")), ("zero", 0), ("dict", {"n": 1}), ("op", _OP), ("none", None), ("i2", int("1000000000002")),
+    # ... and a text value spelled like one of the NAMES ("B"): names and values are different namespaces
+    v = [("i1", int("1000000000001")), ("zero", 0), ("dict", {"n": 1}), ("op", _OP), ("sB", "B"), ("none", None), ("i2", int("1000000000002")),
          ("edict", {}), ("sx", "x"), ("estr", "")]
     return v[:n]
 
